@@ -32,6 +32,19 @@ enum PendingWriteBuffer {
     Shared(Bytes),
 }
 
+#[cfg(all(target_os = "linux", feature = "verif"))]
+impl Drop for PendingWriteBuffer {
+    fn drop(&mut self) {
+        crate::verif::uring_event(
+            (0, 0),
+            crate::verif::UringEvent::Dropped {
+                ptr: self.as_ptr() as usize,
+                len: self.len(),
+            },
+        );
+    }
+}
+
 #[cfg(target_os = "linux")]
 impl PendingWriteBuffer {
     fn as_ptr(&self) -> *const u8 {
@@ -855,14 +868,19 @@ impl DiskIO {
                     let offset = sector * FEOX_BLOCK_SIZE as u64;
                     let buffer = buffers.get(i);
                     #[cfg(feature = "verif")]
-                    let _ = crate::verif::io_write(
+                    let fd = match crate::verif::io_write(
                         (self.file_identity.device, self.file_identity.inode),
                         offset,
                         unsafe { std::slice::from_raw_parts(buffer.as_ptr(), buffer.len()) },
                         "uring",
-                    );
+                    ) {
+                        crate::verif::IoDecision::FailBefore(_) => -1,
+                        _ => self.fd,
+                    };
+                    #[cfg(not(feature = "verif"))]
+                    let fd = self.fd;
                     let write_e = opcode::Write::new(
-                        types::Fd(self.fd),
+                        types::Fd(fd),
                         buffer.as_ptr(),
                         buffer.len() as u32,
                     )
@@ -870,11 +888,21 @@ impl DiskIO {
                     .build()
                     .user_data(user_data_base.wrapping_add(i as u64));
 
+                    #[cfg(feature = "verif")]
+                    let queued_buffer = (buffer.as_ptr() as usize, buffer.len());
                     buffers.mark_in_flight(i);
                     if unsafe { sq.push(&write_e) }.is_err() {
                         buffers.mark_unqueued(i);
                         break;
                     }
+                    #[cfg(feature = "verif")]
+                    crate::verif::uring_event(
+                        (self.file_identity.device, self.file_identity.inode),
+                        crate::verif::UringEvent::Queued {
+                            ptr: queued_buffer.0,
+                            len: queued_buffer.1,
+                        },
+                    );
                     queued += 1;
                 }
 
@@ -886,11 +914,22 @@ impl DiskIO {
             let mut completed_count = 0;
 
             while completed_count < queued {
-                let wait_result = self
-                    .ring
-                    .as_mut()
-                    .expect("io_uring checked above")
-                    .submit_and_wait(queued - completed_count);
+                #[cfg(feature = "verif")]
+                let injected = crate::verif::uring_enter(
+                    (self.file_identity.device, self.file_identity.inode),
+                    queued,
+                    completed_count,
+                );
+                #[cfg(not(feature = "verif"))]
+                let injected: Option<i32> = None;
+                let wait_result = match injected {
+                    Some(errno) => Err(io::Error::from_raw_os_error(errno)),
+                    None => self
+                        .ring
+                        .as_mut()
+                        .expect("io_uring checked above")
+                        .submit_and_wait(queued - completed_count),
+                };
 
                 if let Err(error) = wait_result {
                     if error.kind() == io::ErrorKind::Interrupted {
@@ -1053,6 +1092,14 @@ fn process_completions(
         }
 
         *completed_count += 1;
+        #[cfg(feature = "verif")]
+        crate::verif::uring_event(
+            (0, 0),
+            crate::verif::UringEvent::Completed {
+                ptr: buffers.get(index).as_ptr() as usize,
+                result: cqe.result(),
+            },
+        );
         if first_error.is_none() {
             if let Err(error) = validate_write_completion(cqe.result(), buffers.get(index).len()) {
                 *first_error = Some(FeoxError::IoError(error));
